@@ -67,6 +67,7 @@ def run(rep, tier):
                    "version's code-object layout, and each co_* attribute of the object finally built is bound to the value of the same-named field")
     rep.rule("R5", "strings inside a code object are read as bytes exactly where the producing version stores bytes (co_code and line table always; "
                    "consts/exception table/localspluskinds for 3.x producers); identifier fields of 1.x/2.x stay text; TYPE_UNICODE uses surrogatepass")
+    rep.rule("R7", "load_module hands the unmarshaller a stream positioned right after the header of that magic (header-read obligations C06-R1/R2/R4, restated)")
     rep.rule("R6", "the portable class selected for a version stores every field of that version's layout (no field read and then dropped)")
     rep.rule("R7", "NULL terminator distinguishable; dict reader terminates only on it")
     rep.rule("R9", "TYPE_LONG: |n| 16-bit digits are read, digit j contributes digit << 15*j, the result is negated exactly when n < 0")
@@ -207,6 +208,12 @@ def run(rep, tier):
         for rule, what, exp, got, msg in sig:
             rep.ob(rule, construct, "%s@%s" % (what, lab), False, expected=exp, derived=got, msg=msg + " (magics %s)" % sorted(m[1] for m in members)[:12],
                    where="xdis/unmarshal.py:%d" % cls.lookup("t_code").node.lineno)
+    # ---------------------------------------------------------------- R7 the unmarshaller is started at the right byte: the header obligations of C06, restated
+    from ..report import SubReport, merge_sub
+    from . import c06
+    sub6 = SubReport("C06", tier=tier)
+    c06.run(sub6, "quick")
+    merge_sub(rep, sub6, "R7", "C06", only_rules=("R1", "R2", "R4"))
     rep.assumptions = ["reference/marshal_format.json and code_layout.json (hand-encoded from marshal.c; validated by an independent reader on CPython 2.7/3.6-3.13 dumps and the repo's .pyc corpus; the 2.0 layout has no sample)",
                        "value equality of the fields (float bits, big-int arithmetic), 'whole payload consumed', PyPy/Graal-specific layouts and the native fast path are not decided"]
 
